@@ -88,7 +88,7 @@ func isAtextByte(c byte) bool {
 
 var trickyLocals = []string{"plain", "dot.ted", "a b", "a b>c", "x<y", "semi;colon", "com,ma", "co:lon", "at@sign", "back\\slash", "quo\"te", "(paren)", "trailing.", ".leading", "dou..ble",
 	"ümlaut", "日本", "tab\there", "a>b c<d", "\"", "\\", " ", "MAIL FROM:<x@y>", "a> SIZE=1", "a@b>", "<>",
-	"bob%example.org", "100%.off+news", "sales%%eu", "%s", "%d%v", "a%!b", "pct %s in quotes", "%[1]s", "%"}
+	"Ops@NOC", "First.Last@Dept", "UPPER", "Mixed.Case+Tag", "a@B@c", "bob%example.org", "100%.off+news", "sales%%eu", "%s", "%d%v", "a%!b", "pct %s in quotes", "%[1]s", "%"}
 
 func quoteForHeader(local string) string {
 	var b strings.Builder
@@ -222,6 +222,11 @@ func init() {
 					continue
 				}
 				c.rep.OracleChecked++
+				for _, p := range run.APIProblems {
+					if strings.Contains(p, "GetSender") || strings.Contains(p, "GetRecipients") {
+						c.Violate("c05-envelope-not-what-was-set", p, sc)
+					}
+				}
 				mi := -1
 				ri := 0
 				for _, e := range run.Events {
@@ -323,6 +328,10 @@ func init() {
 						a.Values = append(a.Values, v)
 					}
 					spc.Addr = append(spc.Addr, a)
+					if r.Chance(12) && a.Kind >= 2 && a.Kind <= 4 {
+						// the list is emptied again (and possibly filled once more by a later operation)
+						spc.Addr = append(spc.Addr, AddrOp{Kind: a.Kind, Mode: "set"})
+					}
 				}
 				m, ops, err := spc.Build()
 				if err != nil {
